@@ -202,9 +202,12 @@ func (v *Vue) evaluateNodeAsElement(ctx VueContext, node *html.Node, depth int) 
 	}
 
 	// Regular element node processing (no v-for)
+	// The chosen branch gets the same directive processing as an element
+	// outside a chain (see evaluate): v-html, v-text, v-show, attributes.
 	hasVHtml := helpers.GetAttr(node, "v-html") != ""
+	hasVText := helpers.GetAttr(node, "v-text") != ""
 	var newNode *html.Node
-	if hasVHtml {
+	if hasVHtml || hasVText {
 		newNode = helpers.DeepCloneNode(node)
 	} else {
 		newNode = helpers.ShallowCloneWithAttrs(node)
@@ -213,11 +216,17 @@ func (v *Vue) evaluateNodeAsElement(ctx VueContext, node *html.Node, depth int) 
 	if err := v.evalVHtml(ctx, newNode); err != nil {
 		return nil, err
 	}
+	if err := v.evalVText(ctx, newNode); err != nil {
+		return nil, err
+	}
+	if err := v.evalVShow(ctx, newNode); err != nil {
+		return nil, err
+	}
 	if _, err := v.evalAttributes(ctx, newNode); err != nil {
 		return nil, err
 	}
 
-	if !hasVHtml {
+	if !hasVHtml && !hasVText {
 		ctx.PushTag(node.Data)
 		newChildren, err := v.evaluateChildren(ctx, node, depth+1)
 		ctx.PopTag()
